@@ -91,6 +91,29 @@ pub fn run(tier: Tier) -> i32 {
         p.set_file(None, l, entries);
         jobs.push(Job { p, counts: Some(vec![Num::I(0), Num::I(1), Num::I(2), Num::I(5), Num::I(11), Num::I(100)]), part: "parse-time-counts", cases: n, nontriv: n });
     }
+    // ---- literal counts on an INHERITED plural: forms written in the default locale, `null` in the others;
+    //      the category must follow the locale being rendered, not the locale the forms came from
+    {
+        let mut all = vec!["en"];
+        all.extend(locales.iter().copied().filter(|l| *l != "en"));
+        let mut p = Project::new(Config::simple("en", &all));
+        let mut n = 0;
+        for l in &all {
+            let mut entries = if *l == "en" { plural_entries(l, &[31]) } else { vec![("p31c".to_string(), Val::Null), ("p31o".to_string(), Val::Null)] };
+            for base in ["p31c", "p31o"] {
+                for i in (0..=30).chain([100, 101, 102, 111, 1000000]) {
+                    entries.push((format!("l{base}n{i}"), s(vec![fk_args(base, vec![("count", FkArg::UInt(i as u64))])])));
+                    n += 1;
+                }
+                for d in ["0.5", "1.5"] {
+                    entries.push((format!("l{base}d{}", d.replace('.', "_")), s(vec![fk_args(base, vec![("count", FkArg::Float(d.to_string()))])])));
+                    n += 1;
+                }
+            }
+            p.set_file(None, l, entries);
+        }
+        jobs.push(Job { p, counts: Some(vec![Num::I(0), Num::I(1), Num::I(2), Num::I(5)]), part: "literal-count-on-inherited-plural", cases: n, nontriv: n });
+    }
     // ---- error side ------------------------------------------------------------------------------
     let mut n_err = 0u64;
     for l in tier.pick(vec!["en"], vec!["en", "ru"]) {
